@@ -59,6 +59,11 @@ def rule_env(c: Ctx) -> RuleResult:
                     and not v.body.keys and U(v.test) in ("env is None",)
                 ok = ok or (isinstance(v, ast.IfExp) and isinstance(v.body, ast.Name) and v.body.id == "env" and isinstance(v.orelse, ast.Dict)
                             and not v.orelse.keys and U(v.test) in ("env is not None",))
+                # statement form:  if env is None: env = {}
+                par = f.module.parents.get(n)
+                if not ok and isinstance(v, ast.Dict) and not v.keys and isinstance(par, ast.If) and U(par.test) == "env is None" \
+                        and n in par.body and not par.orelse:
+                    ok = True
                 r.add(f"{f.short}|default env", c.where(f, n), f.short, U(n), "discharged" if ok else "violation",
                       "a fresh empty mapping only when the caller passed none; otherwise the caller's object" if ok else
                       "the entry point rebinds env to something other than `{} if env is None else env`: a caller-supplied (possibly empty) "
@@ -238,6 +243,22 @@ def rule_fold(c: Ctx) -> RuleResult:
                 if isinstance(pat, ast.Constant) and isinstance(rep, ast.Constant) and pat.value in (r"\s+",) and rep.value == " ":
                     return ["collapse"] + inner
                 return [f"re.sub({U(pat)}, {U(rep)})"] + inner
+            if m == "sub" and isinstance(e.func.value, ast.Name) and len(e.args) >= 2:
+                # <COMPILED_RE>.sub(repl, x[, count])
+                pat = None
+                for (mm, name, ptxt, flags, node) in c.p.regex_constants():
+                    if name == e.func.value.id and mm is f.module:
+                        pat = ptxt
+                if pat is not None:
+                    inner = chain(e.args[1], at, depth + 1)
+                    if inner is None:
+                        return None
+                    if len(e.args) > 2 or any(k.arg == "count" and not (isinstance(k.value, ast.Constant) and k.value.value == 0) for k in e.keywords):
+                        return ["compiled sub with a count limit"] + inner
+                    rep = e.args[0]
+                    if pat == r"\s+" and isinstance(rep, ast.Constant) and rep.value == " ":
+                        return ["collapse"] + inner
+                    return [f"{e.func.value.id}.sub({U(rep)})"] + inner
             inner = chain(e.func.value, at, depth + 1)
             if inner is None:
                 return None
